@@ -29,6 +29,17 @@ func runGenericContracts(c *Ctx) {
 	if c.Prop == "C17" {
 		sweepLocks(c, cs, opt)
 		sweepSharedPrinter(c, cs, opt)
+		c.Assume = append(c.Assume,
+			"no schedule is explored: the clauses are sequential obligations (lock balance, deferred unlock, no write through the pointer to the process-wide printer) that the concurrency statement reduces to",
+			"shared-printer-kept: a write is recognised when the stored-to address, or an argument of a module function whose static modification set contains a Printer field, derives from a call of slip.DefaultPrinter() through field addresses, phis, type changes or a cell a closure captured; other flows of that pointer (into a struct field, through an interface) are not followed")
+	}
+	if c.Prop == "C16" {
+		c.Assume = append(c.Assume,
+			"floating point is not interpreted: comparisons are uninterpreted predicates of the two values, float32 -> float64 is the identity on the abstract value, float64 -> float32 an uninterpreted function of it (so a comparison after narrowing is not provably the comparison of the values)")
+	}
+	if c.Prop == "C18" {
+		c.Assume = append(c.Assume,
+			"the package-level parse functions of the ojg dependency (sen.MustParse, sen.MustParseReader, oj.MustParse ...) are assumed to build a new document on every call")
 	}
 }
 
